@@ -15,6 +15,7 @@ import (
 	"os"
 	"path/filepath"
 	"sort"
+	"strconv"
 	"strings"
 	"sync"
 	"sync/atomic"
@@ -61,10 +62,12 @@ func v6BsTerminal(p string) bool {
 	return k == "honest" && rest == "honest"
 }
 
-// deadlines "after k answers" for k = 0..n (answers arrive at 1s, 2s, ...), plus extra ones
+// v6Deadlines: the deadlines worth combining with a sequence of exactly n scripted answers (answers arrive
+// at 1s, 2s, ...): while the last answer is still in flight, after all of them arrived, plus extra ones.
+// An earlier deadline cuts the sequence down to a shorter one, which an earlier phase enumerates with that deadline.
 func v6Deadlines(n int, extra ...string) []string {
 	var out []string
-	for k := 0; k <= n; k++ {
+	for k := max(n-1, 0); k <= n; k++ {
 		out = append(out, fmt.Sprintf("d%dms", k*1000+500))
 	}
 	return append(out, extra...)
@@ -154,7 +157,9 @@ func v6Phases(sqs []*v6Square, b v6Bounds) []v6Phase {
 					alpha := s.answersFor(keys[0], len(keys) == 1)
 					pools := pools
 					if maxLen >= 3 {
-						alpha = v6Filter(alpha, v6DeepShrex)
+						if s.Idx > 0 {
+							alpha = v6Filter(alpha, v6DeepShrex)
+						}
 						pools = pools[:2]
 					}
 					for _, seq := range v6Seqs(alpha, maxLen, v6ShrexTerminal) {
@@ -467,6 +472,13 @@ func TestVerifC06(t *testing.T) {
 		}
 	}()
 
+	// determinism self-check: every recheckEvery-th case is executed twice and must give the same observation log
+	recheckEvery := int64(211)
+	if v := os.Getenv("VERIF_C06_RECHECK_EVERY"); v != "" {
+		if n, err := strconv.ParseInt(v, 10, 64); err == nil && n > 0 {
+			recheckEvery = n
+		}
+	}
 	phases := v6Phases(global, b)
 	var phasesDone []string
 	for _, ph := range phases {
@@ -490,7 +502,7 @@ func TestVerifC06(t *testing.T) {
 					phaseExecs.Add(1)
 					// determinism self-check on a fixed subsequence of the cases
 					var again *v6Result
-					if n%211 == 0 {
+					if n%recheckEvery == 0 {
 						r2 := v6RunCase(t, env, c)
 						again = &r2
 					}
